@@ -652,8 +652,9 @@ class SSHTransportBase(protocol.Protocol):
         ) + self.currentEncryptions.makeMAC(self.outgoingPacketSequence, packet)
         # The sequence number is taken before the packet is handed over: a
         # transport that delivers from inside write() can bring us back here
-        # for the next packet.
-        self.outgoingPacketSequence += 1
+        # for the next packet.  It wraps around after 2 ** 32 packets (RFC 4253
+        # section 6.4).
+        self.outgoingPacketSequence = (self.outgoingPacketSequence + 1) & 0xFFFFFFFF
         self.transport.write(encPacket)
 
     def getPacket(self):
@@ -715,7 +716,7 @@ class SSHTransportBase(protocol.Protocol):
                 self._log.failure("Error decompressing payload")
                 self.sendDisconnect(DISCONNECT_COMPRESSION_ERROR, b"compression error")
                 return
-        self.incomingPacketSequence += 1
+        self.incomingPacketSequence = (self.incomingPacketSequence + 1) & 0xFFFFFFFF
         return payload
 
     def _unsupportedVersionReceived(self, remoteVersion):
